@@ -394,6 +394,10 @@ def build_any(r):
         return build_any(r[2]).reduce(gen_terms.OPS[r[1]])
     if tag == "align":
         return build_any(r[1]).align(tuple(r[2]))
+    if tag == "punary":
+        return getattr(ops, r[1])(build_any(r[3]), *r[2])
+    if tag == "pslice":
+        return build_any(r[2])[tuple(slice(*s_) if isinstance(s_, tuple) else s_ for s_ in r[1])]
     if tag == "binary":
         return gen_terms.OPS[r[1]](build_any(r[2]), build_any(r[3]))
     if tag == "unary":
@@ -808,6 +812,135 @@ def gen_repeat_operand(rng, k, rot):
     return ctx, r, env
 
 
+# ---------------------------------------------------------------------------------------------
+# parametrised array ops, directly nested (Unary of Unary), with a numpy oracle
+# ---------------------------------------------------------------------------------------------
+
+def _neg_axes(rank, k=1):
+    return [-(a + 1) for a in range(rank)]
+
+
+PUNARY_NP = {
+    "transpose": lambda d, a1, a2: np.swapaxes(d, a1, a2),
+    "flip": lambda d, ax: np.flip(d, ax),
+    "unsqueeze": lambda d, ax: np.expand_dims(d, ax),
+    "sum": lambda d, ax, keep: d.sum(ax, keepdims=keep),
+    "prod": lambda d, ax, keep: d.prod(ax, keepdims=keep),
+    "amax": lambda d, ax, keep: d.max(ax, keepdims=keep),
+    "amin": lambda d, ax, keep: d.min(ax, keepdims=keep),
+    "clamp": lambda d, lo, hi: np.clip(d, lo, hi),
+    "neg": lambda d: -d, "abs": lambda d: np.abs(d), "exp": lambda d: np.exp(d), "log": lambda d: np.log(d),
+    "reciprocal": lambda d: 1.0 / d,
+}
+PUNARY_GENERATED = ["transpose", "flip", "unsqueeze", "sum", "prod", "amax", "amin", "clamp", "getslice"]
+NEST_KINDS = ["same-class-other-params", "same-params-twice", "inverse-pair", "mixed", "triple"]
+NEST_GRID = [(kd, o) for kd in NEST_KINDS for o in ("flip", "transpose", "getslice", "sum", "unsqueeze", "clamp")]
+
+
+def np_eval(r):
+    """numpy oracle of a unary-nest recipe: the ops applied to the leaf's data (negative axes = event dims)."""
+    if r[0] == "tensor":
+        return np.asarray(r[4], dtype=np.float64)
+    if r[0] == "punary":
+        return PUNARY_NP[r[1]](np_eval(r[3]), *r[2])
+    if r[0] == "pslice":
+        d = np_eval(r[2])
+        nb = len(_leaf(r)[1])
+        return d[(slice(None),) * nb + tuple(slice(*s) if isinstance(s, tuple) else s for s in r[1])]
+    if r[0] == "unary":
+        return PUNARY_NP[r[1]](np_eval(r[2]))
+    raise ValueError(r[0])
+
+
+def _leaf(r):
+    while r[0] != "tensor":
+        r = r[3] if r[0] == "punary" else r[2]
+    return r
+
+
+def gen_unary_nest(rng, k, rot):
+    kind, first = NEST_GRID[k] if k < 12 else NEST_GRID[(k + rot) % len(NEST_GRID)]
+    ctx = gen_ctx(rng)
+    names = [n for n in ctx if rng.random() < 0.6]
+    ev = rng.choice([(2, 3), (3, 2), (2, 3, 4), (3, 1, 2), (4, 2)])
+    leaf = gen_terms.gen_tensor(rng, ctx, "real", names=names, event_shape=ev)
+    shape = tuple(ctx[n] for n in names) + ev
+    data = np.array([rng.choice([-3.0, -2.0, -1.0, 1.0, 2.0, 3.0, 4.0, 5.0]) for _ in range(int(np.prod(shape)))]).reshape(shape)
+    leaf = leaf[:4] + (data,)
+    env = {"__pyoracle__": 1.0}
+
+    def rank_of(r):
+        return np_eval(r).ndim - len(names)
+
+    def one(opname, r, avoid=None):
+        rk = rank_of(r)
+        if opname == "flip":
+            axs = [a for a in _neg_axes(rk) if (a,) != avoid] or _neg_axes(rk)
+            return ("punary", "flip", (rng.choice(axs),), r)
+        if opname == "transpose":
+            if rk < 2:
+                return one("flip", r, avoid)
+            pairs = [(a, b) for a in _neg_axes(rk) for b in _neg_axes(rk) if a > b and (a, b) != avoid]
+            return ("punary", "transpose", rng.choice(pairs or [(-1, -2)]), r)
+        if opname == "getslice":
+            idx = []
+            sh = np_eval(r).shape[len(names):]
+            for s_ in sh[:rng.randrange(1, rk + 1)]:
+                idx.append(rng.choice([(None, None, -1), (None, None, None), (0, s_, 1), (s_ - 1, None, -1) if s_ > 1 else (None, None, -1),
+                                       (1, None, 1) if s_ > 1 else (None, None, None)]))
+            if tuple(idx) == avoid:
+                idx[0] = (None, None, -1) if idx[0] != (None, None, -1) else (None, None, None)
+            return ("pslice", tuple(idx), r)
+        if opname in ("sum", "prod", "amax", "amin"):
+            return ("punary", rng.choice(["sum", "amax", "amin", "prod"]) if avoid is None else opname,
+                    (rng.choice(_neg_axes(rk)), True), r)
+        if opname == "unsqueeze":
+            return ("punary", "unsqueeze", (rng.choice(_neg_axes(rk + 1)),), r)
+        lo = rng.choice([-2.0, -1.0, 0.0])
+        return ("punary", "clamp", (lo, lo + rng.choice([1.0, 2.0, 3.0])), r)
+
+    def params(r):
+        return r[2] if r[0] == "punary" else r[1]
+    inner = one(first, leaf)
+    if kind == "same-class-other-params":
+        cls = inner[1] if inner[0] == "punary" else "getslice"
+        r = one(cls, inner, avoid=params(inner))
+    elif kind == "same-params-twice":
+        r = (inner[0], inner[1], inner[2], inner) if inner[0] == "punary" else ("pslice", inner[1], inner)
+        try:
+            np_eval(r)
+        except Exception:
+            r = one("flip", inner)
+    elif kind == "inverse-pair":
+        pair = rng.choice([("neg", "neg"), ("reciprocal", "reciprocal"), ("log", "exp"), ("exp", "log")])
+        base = inner
+        vals = np_eval(inner)
+        if "reciprocal" in pair and (vals == 0).any():
+            pair = ("neg", "neg")                  # funsor clips 1/0 to the largest float: keep the oracle exact
+        if pair[0] in ("log",):
+            base = ("unary", "abs", inner)
+            if (vals == 0).any():
+                pair = ("neg", "neg")
+                base = inner
+        if pair == ("exp", "log") and np.abs(vals).max() > 20:
+            pair = ("neg", "neg")
+        r = ("unary", pair[1], ("unary", pair[0], base))
+        if set(pair) & {"exp", "log", "reciprocal"}:
+            env["__approx__"] = 1.0
+    elif kind == "mixed":
+        r = one(rng.choice(["flip", "transpose", "getslice", "unsqueeze", "sum", "clamp"]), inner)
+    else:
+        r = one(rng.choice(["flip", "transpose"]), one(rng.choice(["flip", "transpose", "getslice"]), inner))
+    if rng.random() < 0.3:
+        r = ("unary", "neg", r)
+    return ctx, r, env
+
+
+def oracle_funsor(r):
+    leaf = _leaf(r)
+    return Tensor(np_eval(r), OrderedDict((n, Bint[s]) for n, s in leaf[1]), "real")
+
+
 def cases(base_seed, n):
     """The seeded case list: [(ctx, recipe, family, env)]; env binds the free real inputs; the pseudo-binding
     "__approx__" marks expressions with inexact ops (compared after rounding).  Families by idx mod 12."""
@@ -852,7 +985,11 @@ def cases(base_seed, n):
             if carrier_risky(recipe):
                 recipe = to_nonneg(recipe)
             out.append((ctx, recipe, "subs-grid(overlapping keys/values)", {}))
-        elif m in (1, 6, 11):
+        elif m == 11:
+            ctx, recipe, env = gen_unary_nest(rng, cnt["nest"], rot)
+            cnt["nest"] += 1
+            out.append((ctx, recipe, "unary-nest(parametrised array ops, numpy oracle)", env))
+        elif m in (1, 6):
             ctx, recipe = gen_cnf_grid(rng, cnt["cnf"], rot)
             cnt["cnf"] += 1
             used = recipe_ops(recipe)
@@ -994,6 +1131,12 @@ def recipe_wire(r):
             sizes.append(f[r[1]])
             rest.append({k: v for k, v in f.items() if k != r[1]})
         return ["cat", Q(r[1]), Q(r[1]), sizes] + list(ws), _merge({r[1]: sum(sizes)}, *rest)
+    if tag == "punary":
+        wa, fa = recipe_wire(r[3])
+        return ["unary", ["py:" + r[1]], wa], fa
+    if tag == "pslice":
+        wa, fa = recipe_wire(r[2])
+        return ["unary", ["py:getslice"], wa], fa
     if tag == "align":
         wa, fa = recipe_wire(r[1])
         for n in r[2]:
@@ -1402,6 +1545,15 @@ def run_case(idx, ctx, recipe, base_seed, env):
             out["modes"][name] = d
         else:
             out["modes"][name] = [st[0], st[1]]
+    if env and env.get("__pyoracle__"):
+        try:
+            st = canonical(oracle_funsor(recipe), ins, env)
+            if st[0] == "value":
+                d = digest(st[1])
+                out["tables"].setdefault(d, st[1])
+                out["modes"]["oracle:numpy"] = d
+        except DECLINE as e:
+            out["modes"]["oracle:numpy"] = ["declined", type(e).__name__]
     try:
         try:
             with reflect:
